@@ -146,6 +146,9 @@ package protocol
 //@   keeps ownmaps
 //@   ensures (result1 == nil && msg.Broadcast) ==> implements(r, round.BroadcastRound)
 //@   ensures msg.Broadcast == old(msg.Broadcast)
+// a point-to-point message never reaches a round with an empty recipient: rounds look up their own parameters under msg.To
+//@   ensures[C05] (result1 == nil && !msg.Broadcast) ==> (result0.To != "" || r.SelfID() == "") && result0.To == ite(msg.To == "", r.SelfID(), msg.To)
+//@   ensures[C05] result1 == nil ==> result0.From == msg.From
 
 // The explicit panic fires only if an honest round produced content that does not encode (A-CBOR).
 //@ func (*MultiHandler).finalize
